@@ -209,7 +209,11 @@ func base(path string) string {
 }
 
 func infoOf(path string, n *Inode) fs.FileInfo {
-	return &fileInfo{name: base(path), n: n, size: n.Size()}
+	size := n.Size()
+	if n.Dir {
+		size = 4096 // a directory inode reports the size of its entry table, not 0
+	}
+	return &fileInfo{name: base(path), n: n, size: size}
 }
 
 // ---- os.* functions
